@@ -254,3 +254,15 @@ def run(c, chk):
                 chk.ok('R10.3', fname, 'validcb2 is the first thing that happens on %d paths' % nv)
             else:
                 chk.fail('R10.3', 'no-veto:%s' % fname, c.where(fn), '%s() never consults the pre-set validation callback' % fname)
+
+    # R10.5 / R10.6: two of the refusals named by the property are decided by other machinery: "a section whose title exists"
+    # by the title comparison (C09), "removing one that does not exist" by the path resolver (C11)
+    from . import c09, c11
+    chk.rule('R10.5', 'adding a section is refused whenever its title exists: every title comparison folds case by the same flag word, the existence test covers every position (rules R9.3, R9.7 of C09)')
+    sub = report.SubCheck(chk, 'R10.5', 'C09', only=('R9.3', 'R9.7'))
+    c09.run(c, sub)
+    sub.done('title existence test')
+    chk.rule('R10.6', 'a path that does not resolve is refused and changes nothing: the resolver writes no tree state, carries no index over between steps and never goes on from "not found" (rules R11.2, R11.5, R11.7 of C11)')
+    sub = report.SubCheck(chk, 'R10.6', 'C11', only=('R11.2', 'R11.5', 'R11.7'))
+    c11.run(c, sub)
+    sub.done('unresolvable paths')
